@@ -7,14 +7,15 @@ import json, os, subprocess, sys, time, glob
 VERIF = os.path.dirname(os.path.dirname(os.path.abspath(__file__)))
 ids = [c["property_id"] for c in json.load(open(os.path.join(VERIF, "MANIFEST.json")))["checks"]]
 OWN = "--own" in sys.argv
-sys.argv = [a for a in sys.argv if a != "--own"]
+SEED = next((a.split("=", 1)[1] for a in sys.argv if a.startswith("--seed=")), None)      # another VERIF_SEED: is a catch luck of seed 0?
+sys.argv = [a for a in sys.argv if a != "--own" and not a.startswith("--seed=")]
 names = sys.argv[1:] or sorted(os.path.basename(os.path.dirname(p)) for p in glob.glob(os.path.join(VERIF, "seeded/*/patch.diff")))
-out_path = os.path.join(VERIF, "seeded", "MATRIX_own.json" if OWN else "MATRIX.json")
+out_path = os.path.join(VERIF, "seeded", ("MATRIX_own.json" if OWN else "MATRIX.json") if SEED is None else f"MATRIX_own_seed{SEED}.json")
 matrix = json.load(open(out_path)) if os.path.exists(out_path) else {}
 for name in names:
-    wt = f"/tmp/mx/{name}"
+    wt = f"/tmp/mx{SEED or ''}/{name}"
     subprocess.run(["git", "-C", "/repo", "worktree", "remove", "--force", wt], capture_output=True)
-    os.makedirs("/tmp/mx", exist_ok=True)
+    os.makedirs(os.path.dirname(wt), exist_ok=True)
     subprocess.run(["git", "-C", "/repo", "worktree", "add", "-q", "--detach", wt, "HEAD"], check=True)
     try:
         r = subprocess.run(["git", "-C", wt, "apply", os.path.join(VERIF, "seeded", name, "patch.diff")], capture_output=True, text=True)
@@ -25,7 +26,7 @@ for name in names:
         for cid in ([name[:3]] if OWN else ids):
             t = time.time()
             p = subprocess.run(f"cd {VERIF} && ./check {cid} --tier quick", shell=True, capture_output=True, text=True, timeout=3600,
-                               env=dict(os.environ, VERIF_REPO=wt, VERIF_NO_EVIDENCE="1"))
+                               env=dict(os.environ, VERIF_REPO=wt, VERIF_NO_EVIDENCE="1", **({"VERIF_SEED": SEED} if SEED else {})))
             viol = [l for l in p.stdout.splitlines() if l.startswith("VIOLATION")]
             row[cid] = {"rc": p.returncode, "violations": len(viol), "clause": (viol[0].split("clause=")[1].split(" ")[0] if viol and "clause=" in viol[0] else None),
                         "wall": round(time.time() - t, 1)}
